@@ -334,7 +334,7 @@ func checkHighHalfInert(c *core.Ctx, handlers []handlerRef) {
 		seen[fn] = true
 		carryIn := false
 		for _, n := range h.insts {
-			if regexp.MustCompile(`^v_(addc|subb|subbrev)(_co)?_u32`).MatchString(baseMnemonic(n)) {
+			if core.ProvMatch(regexp.MustCompile(`^v_(addc|subb|subbrev)(_co)?_u32`), baseMnemonic(n)) {
 				carryIn = true
 			}
 		}
